@@ -202,7 +202,7 @@ theorem derived_clock_inherits (pi : Nat) (parent : ClockDecl) (mul : Rat) (cfg 
     (cfg.rstType = none → d.rstType = parent.rstType) ∧ (∀ t, cfg.rstType = some t → d.rstType = t) ∧
     (cfg.activeHigh = none → d.activeHigh = parent.activeHigh) ∧ (∀ t, cfg.activeHigh = some t → d.activeHigh = t) ∧
     (cfg.name = none → d.name = parent.name) ∧ (cfg.resetName = none → d.resetName = parent.resetName) ∧
-    (cfg.phaseSync = none → d.phaseSync = parent.phaseSync) ∧ d.parent = some pi ∧ d.freqOrMul = mul := by
+    (cfg.phaseSync = none → d.phaseSync = true) ∧ d.parent = some pi ∧ d.freqOrMul = mul := by
   refine ⟨fun h r => ?_, fun t h => ?_, fun h => ?_, fun t h => ?_, fun h => ?_, fun t h => ?_, fun h => ?_, fun h => ?_, fun h => ?_, rfl, rfl⟩ <;>
     simp [deriveDecl, h]
 
